@@ -50,6 +50,11 @@ def volume_hook(mod):
     return hook
 
 
+def _copies_of(p):
+    return {f"list({p})", f"tuple({p})", f"numpy.array({p})", f"numpy.array({p}, dtype=numpy.float64)", f"numpy.array({p}, dtype=float)", f"numpy.copy({p})",
+            f"{p}.copy()"}
+
+
 def run(chk):
     repo = chk.repo
     uc = repo.module(UC)
@@ -94,7 +99,12 @@ def run(chk):
         # the stores of lengths / angles feed the formulas
         st = {e.target.key(): e.value.key() for e in ev.events if e.kind == "store"}
         chk.ob("R12.1", UC, "UnitCell.set_lengths_and_angles", "lengths and angles are stored from the arguments before the matrices are built",
-               st.get("self.lengths") == ev.param_names[1] and st.get("self.angles") == ev.param_names[2], found=str(st)[:120])
+               st.get("self.lengths") in _copies_of(ev.param_names[1]) | {ev.param_names[1]} and
+               st.get("self.angles") in _copies_of(ev.param_names[2]) | {ev.param_names[2]}, found=str(st)[:120])
+        chk.ob("R12.1", UC, "UnitCell.set_lengths_and_angles", "the cell stores its own copies of the lengths and angles (a later change of the "
+               "caller's arrays must not change the cell)", st.get("self.lengths") in _copies_of(ev.param_names[1]) and
+               st.get("self.angles") in _copies_of(ev.param_names[2]), fingerprint="params-copy", expected="list(lengths), list(angles)",
+               found=f"{st.get('self.lengths')}, {st.get('self.angles')}")
         vv = uc.ev("UnitCell.volume", attr_hook=property_hook(uc, "UnitCell"))
         chk.saw(UC, "UnitCell.volume")
         chk.ob("R12.1", UC, "UnitCell.volume", "volume = abc sqrt(1 - ca^2 - cb^2 - cg^2 + 2 ca cb cg)",
@@ -175,8 +185,25 @@ def r12_3(chk, uc):
     ev = uc.ev(q, opaque={"u_a", "u_b", "u_c"})
     chk.saw(UC, q)
     vec = P.name(ev.param_names[1])
+
+    def plain(t):
+        """numpy.array(vectors, ...) / numpy.asarray(vectors, ...) -> vectors (a copy has the same entries)"""
+        m = {}
+        for a in find_atoms(t, lambda a: a[0] == "call" and call_name(a) in ("numpy.array", "numpy.asarray", "numpy.copy") and a[2]
+                            and a[2][0].key() == vec.key()):
+            m[a] = vec
+        return t.subs(m) if m else t
+    raw_direct = [e.value for e in ev.events if e.kind == "store" and e.target.key() == "self.direct"]
+    for e in ev.events:
+        if e.value is not None:
+            e.value = plain(e.value)
+    for k in list(ev.defs):
+        ev.defs[k] = plain(ev.defs[k])
     st = {e.target.key(): e.value for e in ev.events if e.kind == "store"}
     invs = [e for e in ev.events if e.kind == "store" and e.target.key() == "self.inverse"]
+    own = bool(raw_direct) and all(call_name(v.as_atom() or ()) in ("numpy.array", "numpy.copy") for v in raw_direct)
+    chk.ob("R12.3", UC, q, "the cell stores its own copy of the vectors (a later change of the caller's array must not change the cell; array_like "
+           "input is converted)", own, fingerprint="vectors-copy", expected="numpy.array(vectors, dtype=float)", found=[str(v)[:80] for v in raw_direct])
     chk.ob("R12.3", UC, q, "direct is the given matrix and inverse its numerical inverse, on every path (a closed form in lengths and angles only "
            "holds for the standard orientation with positive diagonal)",
            st.get("self.direct") is not None and st["self.direct"].key() == vec.key() and bool(invs) and
@@ -300,6 +327,23 @@ def r12_4(chk, repo, uc):
                        fingerprint=f"site:{qual}", expected=declared or "unit chosen by the caller's unit= test",
                        found=f"angles {str(angles)[:100]} tagged {tag}", nontrivial=tag is not None or not ite_ok or passthrough)
     chk.need(nsite >= 10, f"expected >= 10 call sites of from_lengths_and_angles, found {nsite}")
+    # unit= travels in **kwargs: a constructor that accepts them and delegates to another constructor must forward them
+    for fn in uc.methods("UnitCell"):
+        if not fn.args.kwarg or not any(isinstance(d, ast.Name) and d.id == "classmethod" for d in fn.decorator_list):
+            continue
+        kwn = fn.args.kwarg.arg
+        sev = uc.ev(f"UnitCell.{fn.name}")
+        rets = [r for r in sev.returns if r.value is not None and r.value.as_atom() and r.value.as_atom()[0] == "call"]
+        for r in rets:
+            a = r.value.as_atom()
+            callee = a[1].key()
+            if not (callee.startswith("cls.") or callee.startswith("getattr(cls")):
+                continue            # cls(vectors) takes no angles: nothing to forward
+            kw = dict(a[3]) if len(a) > 3 and a[3] else {}
+            fwd = "**" in kw and kw["**"].key() == kwn
+            explicit_unit = "unit" in kw
+            chk.ob("R12.4", UC, f"UnitCell.{fn.name}", f"keyword arguments (unit=...) accepted by the constructor reach the constructor it delegates to",
+                   fwd or explicit_unit, node=r.node, fingerprint=f"forward-kwargs:{fn.name}", expected=f"{callee}(..., **{kwn})", found=str(r.value)[:120])
     # hexagonal forces radians
     hv = uc.ev("UnitCell.hexagonal")
     call = [e for e in hv.events if e.kind == "call" and (call_name(e.value.as_atom() or ()) or "").endswith("from_lengths_and_angles")]
